@@ -192,11 +192,85 @@ pub fn all_single_faults(cmd: u8, seed: &Value, obs: &mut Obs) -> CaseResult {
     Ok(())
 }
 
+/// Two faults at once: a parameter map that omits required parameters AND is malformed at the
+/// CBOR level. The statement assigns 0x14 to "an otherwise well-formed parameter map that omits a
+/// required parameter", so the malformed one must report 0x12 (the decoder cannot know what is
+/// missing before it has read the map, and reading fails first).
+pub fn malformed_and_incomplete(cmd: u8, seed: &Value, obs: &mut Obs) -> CaseResult {
+    let seed = refcbor::canonicalize(seed);
+    let Value::Map(entries) = &seed else { return Ok(()) };
+    let req_top: Vec<Value> = required_members(cmd, &seed).into_iter().filter(|(p, _)| p.is_empty()).map(|(_, k)| k).collect();
+    if req_top.is_empty() {
+        return Ok(());
+    }
+    for j in 0..req_top.len() {
+        for only_required in [true, false] {
+            let keep = &req_top[..j];
+            let reduced: Vec<(Value, Value)> =
+                entries.iter().filter(|(k, _)| if req_top.contains(k) { keep.contains(k) } else { !only_required }).cloned().collect();
+            if !only_required && reduced.len() == j {
+                continue; // no optional member present: same as the previous variant
+            }
+            let r = Value::Map(reduced);
+            let base = msg_of(cmd, &r);
+            let what = format!("{} of {} required kept{}", j, req_top.len(), if only_required { "" } else { " + optional members" });
+            expect("incomplete", format!("well-formed, {}", what), cmd, &base, MISSING_PARAMETER, obs)?;
+            for cut in 1..base.len() {
+                expect("incomplete+truncate", format!("{}; cut at offset = {}", what, cut), cmd, &base[..cut], INVALID_CBOR, obs)?;
+            }
+            let n = r.as_map().map(|m| m.len()).unwrap_or(0);
+            for i in 0..n {
+                let mut v = r.clone();
+                if let Value::Map(m) = &mut v {
+                    let e = m[i].clone();
+                    m.insert(i, e);
+                }
+                expect("incomplete+duplicate-key", format!("{}; entry = {}", what, i), cmd, &msg_of(cmd, &v), INVALID_CBOR, obs)?;
+            }
+            let heads = refcbor::heads(&r);
+            for (idx, (major, _)) in heads.iter().enumerate() {
+                for width in [1u8, 2, 4, 8] {
+                    let (b, applied) = refcbor::encode_fault(&r, HeadFault::Wider { idx, width });
+                    if !applied {
+                        continue;
+                    }
+                    let mut m = vec![cmd];
+                    m.extend_from_slice(&b);
+                    expect("incomplete+non-minimal", format!("{}; head = {} width {}", what, idx, width), cmd, &m, INVALID_CBOR, obs)?;
+                }
+                if (2..=5).contains(major) {
+                    let (b, applied) = refcbor::encode_fault(&r, HeadFault::Indefinite { idx });
+                    if applied {
+                        let mut m = vec![cmd];
+                        m.extend_from_slice(&b);
+                        expect("incomplete+indefinite", format!("{}; head = {}", what, idx), cmd, &m, INVALID_CBOR, obs)?;
+                    }
+                }
+            }
+            for p in mutate::walk(&r) {
+                if p.is_empty() {
+                    continue;
+                }
+                let own = mutate::palette_type(mutate::get(&r, &p).unwrap());
+                for t in 0..7 {
+                    if Some(t) == own || (is_signed(cmd, &p) && (t == 0 || t == 1)) {
+                        continue;
+                    }
+                    let mut v = r.clone();
+                    *mutate::get_mut(&mut v, &p).unwrap() = mutate::palette(t);
+                    expect("incomplete+wrong-type", format!("{}; {} <- {}", what, mutate::path_string(&p), mutate::TYPE_PALETTE[t]), cmd, &msg_of(cmd, &v), INVALID_CBOR, obs)?;
+                }
+            }
+        }
+    }
+    Ok(())
+}
+
 fn seed_case(cmd: u8, src: &mut Src, obs: &mut Obs) -> CaseResult {
     let mut info = Info::default();
     let seed = gen_for(cmd, src, &mut info);
     obs.label(cmd_name(cmd));
-    let r = all_single_faults(cmd, &seed, obs);
+    let r = all_single_faults(cmd, &seed, obs).and_then(|_| malformed_and_incomplete(cmd, &seed, obs));
     let n = obs.sub_evals;
     obs.sample_with(|| json!({"command": cmd_name(cmd), "seed": refcbor::diag(&seed), "single_faults_applied": n}));
     r
@@ -329,7 +403,7 @@ pub fn gens() -> Vec<Gen> {
     vec![G_MC, G_GA, G_CP, G_CM, G_CM41, G_LB, G_CMDBYTE, G_LACKING, G_CONCRETE]
 }
 
-pub const RULE: &str = "Seeds: for every parameter-bearing command the minimal message (no optional member), the full message (every optional member) and proptest-generated well-formed messages from the C01 generator (known members only, canonical). Every seed is crossed with EVERY single fault of each class, enumerated on the value tree / byte string (no sampling within a seed): removal of each required parameter and required nested member -> 0x14; truncation at every byte offset -> 0x12; each key of each map duplicated -> 0x12; each head re-encoded in each wider width -> 0x12; each string/array/map made indefinite-length -> 0x12; each member's value replaced by a representative of every other data type among unsigned/negative/bytes/text/array/map/boolean (sign changes of signed-integer members and null not asserted) -> 0x12; each bounded member one past its limit (documented lossy members excluded) -> 0x12; stray bytes appended after the parameter map -> if rejected at all, one of the three codes. Plus all 256 command bytes x 4 payload kinds (unassigned/unsupported -> 0x01), and messages lacking a required parameter combined with up to two further structural faults (never accepted; status within the three codes). Every fault case is non-trivial by construction; distinct by (fault class, faulted message bytes). The evaluation count is the number of fault cases executed, not the number of seeds.";
+pub const RULE: &str = "Seeds: for every parameter-bearing command the minimal message (no optional member), the full message (every optional member) and proptest-generated well-formed messages from the C01 generator (known members only, canonical). Every seed is crossed with EVERY single fault of each class, enumerated on the value tree / byte string (no sampling within a seed): removal of each required parameter and required nested member -> 0x14; truncation at every byte offset -> 0x12; each key of each map duplicated -> 0x12; each head re-encoded in each wider width -> 0x12; each string/array/map made indefinite-length -> 0x12; each member's value replaced by a representative of every other data type among unsigned/negative/bytes/text/array/map/boolean (sign changes of signed-integer members and null not asserted) -> 0x12; each bounded member one past its limit (documented lossy members excluded) -> 0x12; stray bytes appended after the parameter map -> if rejected at all, one of the three codes; two faults at once - the map reduced to its first j required parameters (with and without its optional members; by itself 0x14) and additionally truncated at every offset / each key duplicated / each head widened or made indefinite / each remaining value replaced by another type -> 0x12, because 0x14 is reserved for an otherwise well-formed map. Plus all 256 command bytes x 4 payload kinds (unassigned/unsupported -> 0x01), and messages lacking a required parameter combined with up to two further structural faults (never accepted; status within the three codes). Every fault case is non-trivial by construction; distinct by (fault class, faulted message bytes). The evaluation count is the number of fault cases executed, not the number of seeds.";
 pub const ASSUMPTIONS: &[&str] = &[
     "required-member and limit tables (reqmodel.rs) transcribe the CTAP specification / the C12 statement",
     "seed messages contain known members only, so every head is interpreted (not skipped) by the decoder",
@@ -370,7 +444,7 @@ pub fn run(ctx: &mut Ctx) {
         "fault:non-minimal:major3", "fault:non-minimal:major4", "fault:non-minimal:major5", "fault:indefinite:major2",
         "fault:indefinite:major3", "fault:indefinite:major4", "fault:indefinite:major5", "fault:wrong-type:unsigned",
         "fault:wrong-type:negative", "fault:wrong-type:bytes", "fault:wrong-type:text", "fault:wrong-type:array",
-        "fault:wrong-type:map", "fault:wrong-type:boolean", "fault:over-limit", "fault:trailing-bytes", "fault:command-byte", "lacking-required",
+        "fault:wrong-type:map", "fault:wrong-type:boolean", "fault:over-limit", "fault:incomplete+truncate", "fault:incomplete+wrong-type", "fault:incomplete+duplicate-key", "fault:incomplete+non-minimal", "fault:trailing-bytes", "fault:command-byte", "lacking-required",
         "MakeCredential", "GetAssertion", "ClientPin", "CredentialManagement", "CredentialManagement(0x41)", "LargeBlobs",
     ]);
 }
